@@ -446,6 +446,15 @@ func (h *harness) exhaustive() {
 	run.SetExhaustive(allComplete)
 }
 
+// wide runs the deterministic wide-selection-set requests (engine.WideCases), as query and as
+// mutation.
+func (h *harness) wide() {
+	n := h.run.Scale(60, 400)
+	cs := append(engine.WideCases(false, n), engine.WideCases(true, n)...)
+	h.run.CountN("wide selection sets (5–12 keys) × presentations", len(cs))
+	h.batch(cs, "wide")
+}
+
 func (h *harness) random() {
 	run := h.run
 	n := run.Scale(40000, 250000)
@@ -453,8 +462,14 @@ func (h *harness) random() {
 	for i := 0; i < n; i++ {
 		r := run.Rand.Fork()
 		o := engine.GenOpts{MaxDepth: r.Range(1, 3), MaxFields: r.Range(2, 4), MaxItems: 3, Mutation: r.Chance(1, 5)}
-		shape := engine.GenShape(r, o, 0, 0)
 		wo := engine.WorldOpts{PAsync: r.Range(2, 7), PFail: r.Range(0, 5), PNull: r.Range(0, 3), PBad: r.Range(0, 2), MaxItems: 3, ValueKindErrors: true}
+		if r.Chance(1, 6) {
+			// wide selection sets: up to 5–12 distinct keys per set (shallower, fewer promises)
+			o.MaxDepth, o.MaxFields, o.MaxItems = r.Range(1, 2), r.Range(5, 12), 2
+			wo.PAsync, wo.MaxItems = r.Range(1, 3), 2
+			run.Count("rand:wide")
+		}
+		shape := engine.GenShape(r, o, 0, 0)
 		world := engine.GenWorld(r, shape, wo)
 		base := &engine.Case{Mutation: o.Mutation, Shape: shape, World: world}
 		for k := 0; k < 4; k++ {
@@ -579,6 +594,7 @@ func main() {
 
 	h.combinators()
 	h.exhaustive()
+	h.wide()
 	h.random()
 	run.Finish(h.model)
 }
